@@ -2,6 +2,8 @@
 binary on this run.  quick: tails {0,1,31,32,33,63}; thorough: every tail 0..63; blocks {0,1,2} in both."""
 from .. import lemmas_e1 as LM
 from ..e1 import tv
+from ..e2.checklib import run_lemmas
+from .. import lemmas_stage2
 
 
 def run(ctx):
@@ -15,7 +17,11 @@ def run(ctx):
         jobs = [j for j in jobs if any(("A8." + p) in ctx.only or p in ctx.only or "A8" in ctx.only for p in j[1][0])]
     ctx.bounds["C06"] = {"block": "64 bytes, all contents, any carry-in (inductive in the carry)",
                          "slice": "blocks in {0,1,2} x tail lengths %s" % LM._ranges(tails), "ndjson": "symbolic (Parse and ParseND)"}
-    ctx.assume("the rest of Parse/ParseND is code shared by both families, so identical stage-1 output (index buffers, "
-               "error mask, carries, processed) implies identical tape/strings/error")
+    ctx.assume("apart from findStructuralIndices, which selects the kernel family and has one call site per family (decided by the U3 "
+               "lemmas below: with the CPU-feature test nondeterministic both branches are executed against the same kernel contract, "
+               "which includes the ndjson flag, the carries and the index-buffer arguments), the rest of Parse/ParseND is code shared by "
+               "both families, so identical stage-1 output (index buffers, error mask, carries, processed) implies identical tape/strings/error")
     ctx.assume("induction over the blocks of a message from the one-step equivalences is the composition rule (not a solver inference)")
     LM.run_parallel(ctx, jobs, tv.STAGE1_OPS)
+    if not getattr(ctx, "only", None) or any(o.startswith("U3") for o in ctx.only):
+        run_lemmas(ctx, lemmas_stage2.u3_lemmas(ctx.tier))
